@@ -362,9 +362,37 @@ EXTRA4 = {
     "C19": "Every history of up to four refresh attempts over the gaps {1 s, T-1, T, 2T} against a one-number model.",
     "C20": "Distinct processes with identical text; unordered onsets with n/a between them; histories under a namespace.",
 }
+EXTRA5 = {
+    "C01": "E2 histories on one HedValidator object (the same value under tags of different value classes); unprefixed tags "
+           "under a prefix.",
+    "C02": "Texts no bounded alphabet spells: missing-value words as the whole annotation, nesting to depth 200; schema names "
+           "with a character whose case folding is longer than itself.",
+    "C03": "A valued tag must resolve to the node's value-taking child; a node with its own extensionAllowed and a '#' child.",
+    "C05": "A named child listed after a placeholder; descriptions with an HTML entity and with backslashes.",
+    "C06": "Neighbouring references to one column; entries that each name one of two referenced value columns; E2 histories "
+           "of sidecar replacement on one table; files whose data rows end in a tab.",
+    "C07": "F8x Excel sheets with empty cells; F6b onset cells that are neither numbers nor n/a, every file order of rows "
+           "without a time; trailing tabs.",
+    "C08": "Empty value entries; referenced columns with capitals; braces around text that is no column name (known finding).",
+    "C09": "Duplicate definition names with letters whose lower-case and case-folded forms differ.",
+    "C10": "Unsorted files holding a failing marker row (every file order, a row without a time at every position); delayed "
+           "groups that cross a time point, in s and Ms.",
+    "C11": "Literals ending in a bare decimal point.",
+    "C12": "Blank-only spreadsheet cells before cells whose issues carry offsets; length-changing case folding.",
+    "C13": "Single schemas held under a prefix; several libraries under one prefix from a partly filled cache folder.",
+    "C14": "Tag-only attributes on units / classes / modifiers; defaultUnits naming a unit of another class.",
+    "C15": "Unparenthesised chains of three and four operands; annotations changed by replacing Def tags with their contents.",
+    "C16": "Events files below a datatype directory with sidecars in the session directory.",
+    "C17": "The documented error of remap_columns is required; rename maps that give two columns one name must not validate.",
+    "C18": "E2 histories with two backup names through one manager object, on paths with leading dots.",
+    "C19": "H8: a slow lock holder beside a loader whose lock attempts time out (deviation bound 3, thorough 4).",
+    "C20": "Every entry of a time point is judged; two values of one value-taking definition.",
+}
 for _k, _v in EXTRA3.items():
     EXTRA[_k] = EXTRA.get(_k, "") + ("  " if _k in EXTRA else "") + _v
 for _k, _v in EXTRA4.items():
+    EXTRA[_k] = EXTRA.get(_k, "") + ("  " if _k in EXTRA else "") + _v
+for _k, _v in EXTRA5.items():
     EXTRA[_k] = EXTRA.get(_k, "") + ("  " if _k in EXTRA else "") + _v
 for _k, _v in EXTRA.items():
     CHECKS[_k]["text"] += "  Extended: " + _v
@@ -377,6 +405,10 @@ CHECKS["C01"]["technique"] += "; enumeration of interpreter hash seeds for the o
 CHECKS["C08"]["engine"] = "E1+E2"
 CHECKS["C08"]["technique"] += "; explicit-state exploration of validate / edit histories on one Sidecar object"
 CHECKS["C10"]["technique"] += "; sequences of files through one validator object"
+CHECKS["C01"]["engine"] = "E1+E2"
+CHECKS["C01"]["technique"] += "; explicit-state exploration of annotation sequences on one validator object and of prefix changes on one schema object"
+CHECKS["C06"]["technique"] += "; sidecar-replacement histories on one table object"
+CHECKS["C18"]["technique"] += "; operation histories with two backup names on one manager object"
 
 
 def main():
